@@ -42,10 +42,22 @@ Definition bor_opt (a b : option bint) : option bint :=
 Definition imod_bits (y : Z) : Z := y mod BINT_BITS.
 Definition brol_pos (x : bint) (y : Z) : option bint := bor_opt (bshl x y) (bshr x (lsub BINT_BITS y)).
 Definition bror_pos (x : bint) (y : Z) : option bint := bor_opt (bshr x y) (bshl x (lsub BINT_BITS y)).
-Definition brol (x : bint) (y : Z) : option bint :=
-  let y1 := imod_bits y in if y1 =? 0 then Some x else brol_pos x y1.
-Definition bror (x : bint) (y : Z) : option bint :=
-  let y1 := imod_bits y in if y1 =? 0 then Some x else bror_pos x y1.
+(* the policy is scraped (Gen.rot_reduces_count): true = the repaired code above, false = the code before the
+   repair, which branched on the sign of the count:
+     if y > 0 then return (x << y) | (x >> (BITS - y))
+     elseif y < 0 then if y ~= mininteger then return x:bror(-y) else <results discarded> end end; return x *)
+Definition brol_pol (reduce : bool) (x : bint) (y : Z) : option bint :=
+  if reduce then (let y1 := imod_bits y in if y1 =? 0 then Some x else brol_pos x y1)
+  else if 0 <? y then brol_pos x y
+  else if y <? 0 then (if y =? minint then Some x else bror_pos x (lneg y))
+  else Some x.
+Definition bror_pol (reduce : bool) (x : bint) (y : Z) : option bint :=
+  if reduce then (let y1 := imod_bits y in if y1 =? 0 then Some x else bror_pos x y1)
+  else if 0 <? y then bror_pos x y
+  else if y <? 0 then (if y =? minint then Some x else brol_pos x (lneg y))
+  else Some x.
+Definition brol := brol_pol rot_reduces_count.
+Definition bror := bror_pol rot_reduces_count.
 
 (* ---- sudivmod: divide by one word, limbs from the most significant ---- *)
 Fixpoint sudiv_loop (rn : list Z) (deno carry rema : Z) : option (list Z * Z) :=
@@ -224,21 +236,32 @@ Fixpoint umulmod_loop (n : nat) (a b m r : bint) : bint :=
   end.
 Definition umulmod (a b m : bint) : bint := umulmod_loop (Z.to_nat BINT_BITS) a b m bint_zero.
 
-Fixpoint upowmod_loop (fuel : nat) (x y z m : bint) : res bint :=
+(* the policy is scraped (Gen.upowmod_mulmod): true = products through umulmod (repaired code), false = the code
+   before the repair: bint_umod(a * b, m), the product formed in BITS bits first *)
+Definition mulmod_pol (mulmod : bool) (a b m : bint) : res bint :=
+  if mulmod then Ok (umulmod a b m) else umod (bmul a b) m.
+Fixpoint upowmod_loop (mulmod : bool) (fuel : nat) (x y z m : bint) : res bint :=
   match fuel with
   | O => Err EFuel
   | S f =>
       if biszero y then Ok z
       else
-        let z' := if bisodd y then umulmod z x m else z in
-        upowmod_loop f (umulmod x x m) (shrone y) z' m
+        match (if bisodd y then mulmod_pol mulmod z x m else Ok z) with
+        | Err e => Err e
+        | Ok z' =>
+            match mulmod_pol mulmod x x m with
+            | Err e => Err e
+            | Ok x' => upowmod_loop mulmod f x' (shrone y) z' m
+            end
+        end
   end.
-Definition upowmod (x y m : bint) : res bint :=
+Definition upowmod_pol (mulmod : bool) (x y m : bint) : res bint :=
   if bisone m then Ok bint_zero
   else match umod x m with
        | Err e => Err e
-       | Ok x' => upowmod_loop (S (Z.to_nat BINT_BITS)) x' y bint_one m
+       | Ok x' => upowmod_loop mulmod (S (Z.to_nat BINT_BITS)) x' y bint_one m
        end.
+Definition upowmod := upowmod_pol upowmod_mulmod.
 
 (* bn.compress: to a Lua integer when it fits *)
 Definition compress (x : bint) : Z + bint :=
